@@ -351,6 +351,25 @@ func (st *State) selectOp(x *ssa.Select) bool {
 			st.countChan("NCS", ch, chosen)
 		}
 	}
+	if x.Blocking && fr.parent == nil && fr.spec != nil && len(fr.spec.Wakes) > 0 {
+		st.u.wakesHit = true
+		for _, wc := range fr.spec.Wakes {
+			env := st.newEnv(fr, nil)
+			want := env.evalInt(wc.E)
+			st.assumeAll(env.defs)
+			var alts []Term
+			for _, s := range x.States {
+				if s.Dir == types.RecvOnly {
+					alts = append(alts, Eq(st.val(s.Chan).Tm, want))
+				}
+			}
+			goal := TFalse
+			if len(alts) > 0 {
+				goal = Or(alts...)
+			}
+			st.u.addObl(st, "wakeup", "select/"+clauseName(wc), x.Pos(), goal, false)
+		}
+	}
 	fr.regs[x] = Value{T: x.Type(), Tup: tup}
 	fr.idx++
 	return false
